@@ -135,7 +135,18 @@ func (b *builder) recover() {
 	if b.r.Intn(8) == 0 {
 		h = b.height - 1 + int64(b.r.Intn(3))
 	}
-	b.ops = append(b.ops, fmt.Sprintf("recover h=%d e0=%s", h, b.e0()))
+	b.ops = append(b.ops, recoverOp(h, b.e0()))
+}
+
+// recoverOp: the start-up at height h; em = the marker of the previous height as catchupReplay
+// writes it when it is missing (fixed time stamp).
+func recoverOp(h int64, e0 string) string {
+	eh := h - 1
+	if h == 1 {
+		eh = 0
+	}
+	em := marshal(time.Unix(1600000004, 7).UTC(), consensus.EndHeightMessage{Height: eh})
+	return fmt.Sprintf("recover h=%d e0=%s em=%s", h, e0, hx(em))
 }
 
 func (b *builder) look() {
@@ -217,14 +228,14 @@ func gen(r *rand.Rand, tier string, emit func(core.Case)) {
 			b.ops = append(b.ops, "write data="+hx(d1), "write data="+hx(d2))
 			b.ops = append(b.ops, fmt.Sprintf("crash cut=%d", cut))
 			b.open()
-			b.ops = append(b.ops, fmt.Sprintf("recover h=%d e0=%s", proto.height, b.e0()))
+			b.ops = append(b.ops, recoverOp(proto.height, b.e0()))
 			// the node goes on: synced writes after the restart, then a second restart
 			x1 := marshal(time.Unix(1600000002, 1).UTC(), types.EventDataRoundState{Height: proto.height, Round: 0, Step: "after"})
 			x2 := marshal(time.Unix(1600000003, 1).UTC(), consensus.EndHeightMessage{Height: proto.height})
 			b.ops = append(b.ops, "wsync data="+hx(x1), "wsync data="+hx(x2), "readall")
 			b.ops = append(b.ops, fmt.Sprintf("crash cut=%d", r.Intn(3)))
 			b.open()
-			b.ops = append(b.ops, fmt.Sprintf("recover h=%d e0=%s", proto.height+1, b.e0()), "readall",
+			b.ops = append(b.ops, recoverOp(proto.height+1, b.e0()), "readall",
 				fmt.Sprintf("search h=%d ign=0", proto.height), fmt.Sprintf("search h=%d ign=1", proto.height-1))
 			emit(core.Case{Kind: "torn-offsets", Ops: b.ops})
 		}
@@ -378,6 +389,82 @@ func gen(r *rand.Rand, tier string, emit func(core.Case)) {
 		b.look()
 		emit(core.Case{Kind: "buffer-40k", Ops: b.ops})
 	}
+	// 7b. groups whose directory already holds rotated files with large or sparse indices (a long
+	// lived node: indices grow without bound while old files are pruned): open, read, search,
+	// rotate, prune, reopen
+	for c := 0; c < 40*scale; c++ {
+		b := newBuilder(r)
+		b.hl = []int{0, 40, 100}[r.Intn(3)]
+		b.tl = []int{0, 0, 200, 800}[r.Intn(4)]
+		var idx []int
+		switch r.Intn(6) {
+		case 0:
+			for i := 995; i <= 1005; i++ {
+				idx = append(idx, i)
+			}
+		case 1:
+			for i := 9998; i <= 10002; i++ {
+				idx = append(idx, i)
+			}
+		case 2:
+			idx = []int{997, 999, 1000, 1003}
+		case 3:
+			idx = []int{3, 4, 7, 12}
+		case 4:
+			base := []int{0, 98, 998, 99998, 1000000}[r.Intn(5)]
+			for i := 0; i < 1+r.Intn(5); i++ {
+				idx = append(idx, base+i)
+			}
+		default:
+			base := r.Intn(2000)
+			for i := 0; i < 6; i++ {
+				if r.Intn(3) > 0 {
+					idx = append(idx, base+i)
+				}
+			}
+		}
+		for _, i := range idx {
+			var recs []string
+			n := r.Intn(4)
+			for k := 0; k < n; k++ {
+				if r.Intn(2) == 0 {
+					recs = append(recs, hx(b.marker()))
+				} else {
+					recs = append(recs, hx(b.msg(0)))
+				}
+			}
+			rs := "-"
+			if len(recs) > 0 {
+				rs = strings.Join(recs, ",")
+			}
+			b.ops = append(b.ops, fmt.Sprintf("mkfile i=%d recs=%s", i, rs))
+		}
+		b.open()
+		b.look()
+		for k := 0; k < 1+r.Intn(3); k++ {
+			b.work(1 + r.Intn(4))
+			b.ops = append(b.ops, "sync", "rotate")
+			if r.Intn(2) == 0 {
+				b.ops = append(b.ops, "prune")
+			}
+			if r.Intn(2) == 0 {
+				if r.Intn(2) == 0 {
+					b.ops = append(b.ops, "stop")
+				} else {
+					b.crash()
+				}
+				b.open()
+				b.recover()
+			}
+			b.look()
+		}
+		for _, h := range b.all {
+			if r.Intn(2) == 0 {
+				b.ops = append(b.ops, fmt.Sprintf("search h=%d ign=1", h))
+			}
+		}
+		emit(core.Case{Kind: "planted-indices", Ops: b.ops})
+	}
 	// 8. a record above the size limit is refused and leaves no trace
 	{
 		b := newBuilder(r)
@@ -393,7 +480,7 @@ func gen(r *rand.Rand, tier string, emit func(core.Case)) {
 	// 9. malformed and out-of-state op lines (both sides must refuse them the same way)
 	bad := []string{"open", "open hl=1 tl=1", "open hl=x tl=1 e0=-", "write", "write data=zz", "write data=abc", "sync now",
 		"rotate 1", "crash", "crash cut=-1", "flip f=h off=1", "flip f=h off=1 x=0", "flip f=h off=1 x=256", "flip f=q off=1 x=1",
-		"raw", "search h=1", "search ign=1", "search h=a ign=0", "recover h=1", "recover e0=-", "readall x", "ls x", "frobnicate", "stop 1"}
+		"raw", "mkfile", "mkfile i=1", "mkfile i=x recs=-", "mkfile i=1 recs=zz", "search h=1", "search ign=1", "search h=a ign=0", "recover h=1", "recover e0=-", "readall x", "ls x", "frobnicate", "stop 1"}
 	for c := 0; c < 30*scale; c++ {
 		b := newBuilder(r)
 		var ops []string
@@ -412,7 +499,7 @@ func gen(r *rand.Rand, tier string, emit func(core.Case)) {
 			default:
 				// any op, in whatever state
 				all := []string{"write data=" + hx(b.msg(0)), "wsync data=" + hx(b.marker()), "sync", "rotate", "prune", "readall",
-					"search h=1 ign=1", "recover h=1 e0=" + b.e0(), "raw data=00", "ls", "flip f=h off=3 x=1", "crash cut=2",
+					"search h=1 ign=1", recoverOp(1, b.e0()), "raw data=00", "ls", "flip f=h off=3 x=1", "crash cut=2",
 					fmt.Sprintf("open hl=0 tl=0 e0=%s", b.e0())}
 				o := all[r.Intn(len(all))]
 				ops = append(ops, o)
